@@ -12,9 +12,9 @@ vars == <<l, bad, stats>>
 RenderLabels(c, which, outcome, r) ==
   (IF outcome = "panicked" THEN {which \o "-crash"} ELSE {})
   \cup (IF outcome = "error" THEN {which \o "-error"} ELSE {})
-  \* structural fidelity is judged for names that are plain identifiers and graphs without empty targets
-  \cup (IF outcome = "returned" /\ c.plainNames /\ ~HasEmpty(c.g) /\ r.unparsed # <<>> THEN {which \o "-malformed-statement"} ELSE {})
-  \cup (IF outcome = "returned" /\ c.plainNames /\ ~HasEmpty(c.g) /\ r.unparsed = <<>> /\ ~RenderFaithful(c.g, r)
+  \* structural fidelity is judged for names that are plain identifiers
+  \cup (IF outcome = "returned" /\ c.plainNames /\ r.unparsed # <<>> THEN {which \o "-malformed-statement"} ELSE {})
+  \cup (IF outcome = "returned" /\ c.plainNames /\ r.unparsed = <<>> /\ ~RenderFaithful(c.g, r)
         THEN {which \o "-not-faithful"} ELSE {})
 
 Labels(c) ==
@@ -35,7 +35,7 @@ Next ==
                   withBranches |-> stats.withBranches + (IF NBranches(c.g) > 0 THEN 1 ELSE 0),
                   withMissing |-> stats.withMissing + (IF MissingTargets(c.g) # {} THEN 1 ELSE 0),
                   withNative |-> stats.withNative + (IF \E n \in Nodes(c.g) : c.g[n].action = "native" THEN 1 ELSE 0),
-                  structural |-> stats.structural + (IF c.plainNames /\ ~HasEmpty(c.g) THEN 1 ELSE 0)]
+                  structural |-> stats.structural + (IF c.plainNames THEN 1 ELSE 0)]
 Spec == Init /\ [][Next]_vars
 Done == (l = Len(Trace) + 1) =>
           /\ ndJsonSerialize("judge_bad.ndjson", bad)
